@@ -69,6 +69,9 @@ def hex_blocks(rng: random.Random, sizes: List[int], w: int, big_divs=((10, 2),)
         add("count_bits", "hex.count_bits {n}, {v0}, {v1}", 2, n, m=((4 * n).bit_length() + 3) // 4)
         if n <= 8:
             add("mul", "hex.mul {n}, {v0}, {v1}, {v2}", 3, n)
+            # in place (x *= y): the result variable is also the first factor; the documentation sets no restriction on it
+            va, vb = rng.sample(VARS, 2)
+            B.append(Block("mul", "hex.mul {n}, {v0}, {v1}, {v2}", [va, va, vb], n, name="hex.mul[res=a]"))
         if n >= 2:
             sn = rng.randrange(1, n)
             add("sign_extend", "hex.sign_extend {n}, {m}, {v0}", 1, n, m=sn)
